@@ -80,7 +80,11 @@ def fit_sphere(z):
     rho = np.sqrt(xx_**2 + yy_**2)
     focus = rho ** 2
 
-    coefs = np.linalg.lstsq(np.stack([focus.flatten(), np.ones(focus.shape)]).T, z[pts].flatten(), rcond=None)[0]
+    # regress on the centered rho^2: the same slope whenever power can be told
+    # apart from piston on the valid samples, and zero (nothing removed) when
+    # it cannot, instead of an arbitrary split of the mean between the two
+    focus_c = focus - focus.mean()
+    coefs = np.linalg.lstsq(np.stack([focus_c.flatten(), np.ones(focus.shape)]).T, z[pts].flatten(), rcond=None)[0]
     rho, phi = cart_to_polar(xx, yy)
     sphere = focus * coefs[0]
     return pts, sphere
